@@ -120,7 +120,8 @@ pub fn run_once(setup: &Setup, prefix: &[usize]) -> Exec {
     }
     let req = rb.body(()).unwrap();
     let (resp, w) = http_serve::streaming_body(&req).with_chunk_size(setup.chunk).with_gzip_level(1).build::<VBuf, HErr>();
-    let mut w = w.expect("writer");
+    // leaked instead of dropped if the thread unwinds (see LeakOnUnwind)
+    let mut w = crate::drive::LeakOnUnwind::new(w.expect("writer"));
     let body = resp.into_body();
     let plog = Arc::new(Mutex::new(ProdLog::default()));
     let clog = Arc::new(Mutex::new(ConsLog::default()));
@@ -207,8 +208,12 @@ pub fn run_once(setup: &Setup, prefix: &[usize]) -> Exec {
                     if sched.point(1, Point::Start).is_err() {
                         return;
                     }
-                    let mut body = Box::pin(body);
+                    let mut body = crate::drive::LeakOnUnwind::new(Box::pin(body));
                     let mut gen: u64 = 0;
+                    let mut next_gen: u64 = 1;
+                    // the waker used before the current one (an executor may alternate between
+                    // a few wakers: A, B, A ...)
+                    let mut prev: Option<(u64, std::task::Waker)> = None;
                     let mut waker = sched::new_waker(&sched, gen);
                     let mut polls = 0usize;
                     let mut frames = 0usize;
@@ -223,17 +228,33 @@ pub fn run_once(setup: &Setup, prefix: &[usize]) -> Exec {
                             clog.lock().unwrap().body_dropped_at_step = Some(sched.step_count());
                             return;
                         }
-                        let fresh = polls > 0
-                            && match setup.policy {
-                                WakerPolicy::AlwaysFresh => true,
-                                WakerPolicy::Choose => match sched.point(1, Point::Choice(2)) {
-                                    Ok(a) => a == 1,
+                        // environment choice: 0 = same waker as last time, 1 = a fresh one,
+                        // 2 = the one used before the current one
+                        let choice = if polls == 0 {
+                            0
+                        } else {
+                            match setup.policy {
+                                WakerPolicy::AlwaysFresh => 1,
+                                WakerPolicy::Choose => match sched.point(1, Point::Choice(if prev.is_some() { 3 } else { 2 })) {
+                                    Ok(a) => a,
                                     Err(_) => break,
                                 },
-                            };
-                        if fresh {
-                            gen += 1;
-                            waker = sched::new_waker(&sched, gen);
+                            }
+                        };
+                        match choice {
+                            1 => {
+                                let old = std::mem::replace(&mut waker, sched::new_waker(&sched, next_gen));
+                                prev = Some((gen, old));
+                                gen = next_gen;
+                                next_gen += 1;
+                            }
+                            2 => {
+                                let (pg, pw) = prev.take().expect("previous waker");
+                                let old = std::mem::replace(&mut waker, pw);
+                                prev = Some((gen, old));
+                                gen = pg;
+                            }
+                            _ => {}
                         }
                         let sample = if setup.sample_hints {
                             let h = body.size_hint();
